@@ -151,6 +151,10 @@ Satisfied(st) == /\ \A q \in 1 .. Len(st.cons) : ConstraintHolds(st, st.cons[q])
 (***************************************************************************)
 At(s, k, dflt) == IF k >= 1 /\ k <= Len(s) THEN s[k] ELSE dflt
 
+\* create_randomized_constraints (prover.rs:418-441, verifier.rs:353-376): the effect of the phase
+\* switch on the bookkeeping of either role - a half-assigned gate is closed, never carried over
+SwitchSt(st) == [st EXCEPT !.pending = NoPending]
+
 \* transcript operations of the first part, given the commitments the prover emits
 P1RngOps(st) ==
   << OpA("m", "u64", Len(st.v)), OpRB >> \o [j \in 1 .. Len(st.v) |-> OpRK("v_blinding", st.vb[j])] \o << OpRF >>
@@ -171,7 +175,7 @@ ProveP1(env, cap, st, d) ==
      THEN [res |-> "InvalidGeneratorsLength", ops |-> P1RngOps(st), used |-> 0, st |-> st, mid |-> << >>]
      ELSE [res |-> "", ops |-> << >>,
            used |-> 3 + 2 * n1,
-           st |-> [st EXCEPT !.pending = NoPending],      \* create_randomized_constraints clears it
+           st |-> SwitchSt(st),
            \* the reference prover's first-phase secrets and commitments
            mid |-> [n1 |-> n1, i1 |-> i1, o1 |-> o1, s1 |-> s1, sL1 |-> sL1, sR1 |-> sR1,
                     AI1 |-> AI1, AO1 |-> AO1, S1 |-> S1]]
@@ -280,7 +284,7 @@ VerifyP1(st, pf) ==
   IN IF ~val.ok
      THEN [res |-> "VerificationError", ops |-> val.ops, st |-> st, n1 |-> st.nv]
      ELSE [res |-> "", ops |-> Append(val.ops, IF st.ndefer = 0 THEN DomSep1Phase ELSE DomSep2Phase),
-           st |-> [st EXCEPT !.pending = NoPending], n1 |-> st.nv]
+           st |-> SwitchSt(st), n1 |-> st.nv]
 
 (***************************************************************************)
 (* Everything the verifier computes from the statement, the proof and the  *)
